@@ -1,8 +1,8 @@
 (* Lemmas about Vis/Visibility.v against Vis/VisSpec.v.
    Method: every operation acts pointwise on the "view" of an entity
    (its map entry, membership in added, membership in removed); the four legal views per
-   policy are in bijection with (a_cur, a_eprev) (function `conc`); the invariant is
-   `view v e = conc wl cur eprev` for every e. *)
+   policy are in bijection with (a_cur, a_prev) (function `conc`); the invariant is
+   `view v e = conc wl cur prev` for every e. *)
 From RV Require Import Lib.Res Vis.Visibility Vis.VisSpec.
 From Coq Require Import ZifyBool ZifyN.
 Open Scope N_scope.
@@ -113,10 +113,12 @@ Definition set_cell (wl b : bool) (c : cell) : cell :=
   let '(i, a, r) := c in
   if wl then
     if b then
-      match i with
-      | CNone | CWlJustAdded => (CWlJustAdded, true, false)
-      | _ => (i, a, false)
-      end
+      if r then (CWlVisible, a, false)
+      else
+        match i with
+        | CNone | CWlJustAdded => (CWlJustAdded, true, false)
+        | _ => (i, a, false)
+        end
     else
       match i with
       | CNone => c
@@ -161,7 +163,8 @@ Ltac eqb_cases e' e :=
 Lemma is_whitelist_set_visibility v e b : is_whitelist (set_visibility v e b) = is_whitelist v.
 Proof.
   destruct v as [[l|l] a r]; unfold set_visibility, is_whitelist; cbn [v_list v_added v_removed];
-    destruct b; destruct (lookup e l) as [[|]|]; try destruct (set_mem e a); reflexivity.
+    destruct b; try destruct (set_mem e r); destruct (lookup e l) as [[|]|];
+    try destruct (set_mem e a); reflexivity.
 Qed.
 
 Lemma is_whitelist_update v : is_whitelist (update v) = is_whitelist v.
@@ -197,13 +200,16 @@ Proof.
       * rewrite lookup_map_insert, set_mem_insert.
         eqb_cases e' e; [rewrite Hl; reflexivity|reflexivity].
   - destruct b.
-    + destruct (lookup e l) as [[|]|] eqn:Hl; cbn [v_list v_added v_removed].
-      * rewrite set_mem_remove.
-        eqb_cases e' e; [rewrite Hl; reflexivity|reflexivity].
-      * rewrite set_mem_remove, set_mem_insert.
-        eqb_cases e' e; [rewrite Hl; reflexivity|reflexivity].
-      * rewrite lookup_map_insert, set_mem_remove, set_mem_insert.
-        eqb_cases e' e; [rewrite Hl; reflexivity|reflexivity].
+    + destruct (set_mem e r) eqn:Hr.
+      * cbn [v_list v_added v_removed]. rewrite lookup_map_insert, set_mem_remove.
+        eqb_cases e' e; [rewrite Hr; reflexivity|reflexivity].
+      * destruct (lookup e l) as [[|]|] eqn:Hl; cbn [v_list v_added v_removed].
+        -- rewrite set_mem_remove.
+           eqb_cases e' e; [rewrite Hl, Hr; reflexivity|reflexivity].
+        -- rewrite set_mem_remove, set_mem_insert.
+           eqb_cases e' e; [rewrite Hl, Hr; reflexivity|reflexivity].
+        -- rewrite lookup_map_insert, set_mem_remove, set_mem_insert.
+           eqb_cases e' e; [rewrite Hl, Hr; reflexivity|reflexivity].
     + destruct (lookup e l) as [i|] eqn:Hl.
       * destruct (set_mem e a) eqn:Ha; cbn [v_list v_added v_removed].
         -- rewrite lookup_map_remove, set_mem_remove.
@@ -286,7 +292,8 @@ Proof.
   unfold is_visible. rewrite state_view, is_whitelist_set_visibility, view_set_visibility, N.eqb_refl.
   unfold view. destruct v as [[l|l] a r]; unfold is_whitelist, list_info, set_cell, state_info;
     cbn [v_list v_added v_removed fst];
-    destruct b; destruct (lookup e l) as [[|]|]; destruct (set_mem e a); reflexivity.
+    destruct b; destruct (lookup e l) as [[|]|]; destruct (set_mem e a); destruct (set_mem e r);
+    reflexivity.
 Qed.
 
 (* ---------- the four legal views per policy ---------- *)
@@ -311,7 +318,7 @@ Lemma conc_inj wl cur ep cur' ep' : conc wl cur ep = conc wl cur' ep' -> cur = c
 Proof. destruct wl, cur, ep, cur', ep'; cbn; intros H; try discriminate H; split; reflexivity. Qed.
 
 Lemma set_cell_conc wl b cur ep :
-  set_cell wl b (conc wl cur ep) = conc wl b (if wl && b && negb cur then false else ep).
+  set_cell wl b (conc wl cur ep) = conc wl b ep.
 Proof. destruct wl, b, cur, ep; reflexivity. Qed.
 
 Lemma drain_cell_conc wl cur ep : drain_cell wl (conc wl cur ep) = conc wl cur (ep && cur).
@@ -348,7 +355,7 @@ Qed.
 
 Definition Inv (wl : bool) (s : vsys) (cs : N -> acell) : Prop :=
   is_whitelist (s_vis s) = wl /\
-  forall e, view (s_vis s) e = conc wl (a_cur (cs e)) (a_eprev (cs e)) /\
+  forall e, view (s_vis s) e = conc wl (a_cur (cs e)) (a_prev (cs e)) /\
             count_occ N.eq_dec (s_pending s) e = a_pend (cs e).
 
 Lemma Inv_init wl : Inv wl (vis_init wl) (fun _ => a_init wl).
@@ -418,7 +425,7 @@ Lemma vis_tick_spec wl s cs : Inv wl s cs ->
     (In e (o_despawns (snd (vis_tick s))) <-> despawn_record wl (cs e) = true) /\
     view (o_mid (snd (vis_tick s))) e = conc wl (mid_cur wl (cs e))
                                             (match a_pend (cs e) with
-                                             | O => a_eprev (cs e) && a_cur (cs e)
+                                             | O => a_prev (cs e) && a_cur (cs e)
                                              | S _ => negb wl end).
 Proof.
   intros [Hwl Hinv]. unfold vis_tick.
@@ -432,12 +439,12 @@ Proof.
   cbn [fst snd o_despawns o_mid s_vis s_pending].
   assert (Hmid : forall e,
     view v2 e = conc wl (mid_cur wl (cs e))
-                  (match a_pend (cs e) with O => a_eprev (cs e) && a_cur (cs e) | S _ => negb wl end)
+                  (match a_pend (cs e) with O => a_prev (cs e) && a_cur (cs e) | S _ => negb wl end)
     /\ (In e ds <-> loop_record wl (a_cur (cs e)) (a_pend (cs e)) = true)).
   { intros e. destruct (Hinv e) as [Hv Hc].
-    assert (Hv1 : view v1 e = conc wl (a_cur (cs e)) (a_eprev (cs e) && a_cur (cs e))).
+    assert (Hv1 : view v1 e = conc wl (a_cur (cs e)) (a_prev (cs e) && a_cur (cs e))).
     { rewrite Hview1, Hv. apply drain_cell_conc. }
-    assert (Hside : wl = true -> a_cur (cs e) = false -> a_eprev (cs e) && a_cur (cs e) = false).
+    assert (Hside : wl = true -> a_cur (cs e) = false -> a_prev (cs e) && a_cur (cs e) = false).
     { intros _ ->. apply andb_false_r. }
     destruct (Hl e _ _ Hv1 Hside) as [Hv2 HIn]. rewrite Hc in Hv2, HIn.
     split; [|exact HIn]. unfold mid_cur. destruct (a_pend (cs e)); exact Hv2. }
@@ -446,7 +453,7 @@ Proof.
     intros e. cbn [s_vis s_pending count_occ astep].
     destruct (Hmid e) as [Hv2 _].
     rewrite view_update, Hwl2, Hv2, update_cell_conc. unfold mid_cur.
-    destruct (a_pend (cs e)); cbn [a_cur a_eprev a_pend a_init]; split; reflexivity.
+    destruct (a_pend (cs e)); cbn [a_cur a_prev a_pend a_init]; split; reflexivity.
   - intros e. destruct (Hmid e) as [Hv2 HIn]. split; [|exact Hv2].
     rewrite in_app_iff, HIn, Hlost. destruct (Hinv e) as [Hv _]. rewrite Hv, lost_cell_conc.
     unfold despawn_record, loop_record. rewrite orb_true_iff. reflexivity.
@@ -460,14 +467,14 @@ Proof.
     + cbn [s_vis]. rewrite is_whitelist_set_visibility. exact Hwl.
     + intros e. cbn [s_vis s_pending astep]. destruct (Hinv e) as [Hv Hc].
       rewrite view_set_visibility, Hwl, (N.eqb_sym x e).
-      destruct (e =? x); cbn [a_cur a_eprev a_pend].
+      destruct (e =? x); cbn [a_cur a_prev a_pend].
       * rewrite Hv, set_cell_conc. split; [reflexivity|exact Hc].
       * split; [exact Hv|exact Hc].
   - destruct HI as [Hwl Hinv]. cbn [vis_step fst]. split; [exact Hwl|].
     intros e. cbn [s_vis s_pending astep]. destruct (Hinv e) as [Hv Hc].
     rewrite count_occ_app, Hc. cbn [count_occ].
     destruct (N.eq_dec x e) as [-> | Hne].
-    + rewrite N.eqb_refl. cbn [a_cur a_eprev a_pend]. split; [exact Hv|lia].
+    + rewrite N.eqb_refl. cbn [a_cur a_prev a_pend]. split; [exact Hv|lia].
     + apply N.eqb_neq in Hne. rewrite Hne. split; [exact Hv|lia].
   - unfold vis_step. pose proof (vis_tick_spec wl s cs HI) as [H _].
     destruct (vis_tick s) as [s' o]. exact H.
@@ -516,6 +523,9 @@ Proof.
   destruct (a_pend (spec wl ops e)); reflexivity.
 Qed.
 
+Lemma spec_prev_nil wl e : spec_prev wl [] e = negb wl.
+Proof. reflexivity. Qed.
+
 Lemma spec_prev_tick wl ops e : spec_prev wl (ops ++ [VTick]) e = spec_cur wl (ops ++ [VTick]) e.
 Proof.
   unfold spec_prev, spec_cur. rewrite spec_snoc. cbn [astep].
@@ -529,60 +539,25 @@ Proof.
   destruct op as [x b|x|]; cbn [astep]; [destruct (x =? e); reflexivity ..|congruence].
 Qed.
 
+Lemma spec_pend_nil wl e : spec_pend wl [] e = O.
+Proof. reflexivity. Qed.
+
 Lemma spec_pend_despawn_same wl ops e : spec_pend wl (ops ++ [VDespawn e]) e = S (spec_pend wl ops e).
 Proof. unfold spec_pend. rewrite spec_snoc. cbn [astep]. rewrite N.eqb_refl. reflexivity. Qed.
+
+Lemma spec_pend_despawn_other wl ops e e' : e' <> e ->
+  spec_pend wl (ops ++ [VDespawn e']) e = spec_pend wl ops e.
+Proof.
+  intros Hne. unfold spec_pend. rewrite spec_snoc. cbn [astep].
+  apply N.eqb_neq in Hne. rewrite Hne. reflexivity.
+Qed.
+
+Lemma spec_pend_set wl ops e e' b : spec_pend wl (ops ++ [VSet e' b]) e = spec_pend wl ops e.
+Proof. unfold spec_pend. rewrite spec_snoc. cbn [astep]. destruct (e' =? e); reflexivity. Qed.
 
 Lemma spec_pend_tick wl ops e : spec_pend wl (ops ++ [VTick]) e = O.
 Proof.
   unfold spec_pend. rewrite spec_snoc. cbn [astep]. destruct (a_pend (spec wl ops e)); reflexivity.
-Qed.
-
-(* the structure's memory of "the client has it" versus the ideal one *)
-Lemma astep_eprev_prev wl e c op :
-  (a_eprev c = true -> a_prev c = true) ->
-  (a_eprev (astep wl e c op) = true -> a_prev (astep wl e c op) = true).
-Proof.
-  intros H. destruct op as [x b|x|]; cbn [astep].
-  - destruct (x =? e); [|exact H]. cbn [a_eprev a_prev].
-    destruct (wl && b && negb (a_cur c)); [discriminate|exact H].
-  - destruct (x =? e); exact H.
-  - destruct (a_pend c); cbn [a_eprev a_prev a_init]; intros H'; exact H'.
-Qed.
-
-Lemma spec_eprev_implies_prev wl ops e : spec_eprev wl ops e = true -> spec_prev wl ops e = true.
-Proof.
-  unfold spec_eprev, spec_prev, spec.
-  assert (G : forall c, (a_eprev c = true -> a_prev c = true) ->
-     a_eprev (fold_left (astep wl e) ops c) = true -> a_prev (fold_left (astep wl e) ops c) = true).
-  { induction ops as [|op r IH]; intros c Hc; [exact Hc|]. cbn [fold_left].
-    apply IH. apply astep_eprev_prev. exact Hc. }
-  apply G. intros H. exact H.
-Qed.
-
-Lemma spec_eprev_blacklist ops e : spec_eprev false ops e = spec_prev false ops e.
-Proof.
-  unfold spec_eprev, spec_prev, spec.
-  assert (G : forall c, a_eprev c = a_prev c ->
-     a_eprev (fold_left (astep false e) ops c) = a_prev (fold_left (astep false e) ops c)).
-  { induction ops as [|op r IH]; intros c Hc; [exact Hc|]. cbn [fold_left].
-    apply IH. destruct op as [x b|x|]; cbn [astep].
-    - destruct (x =? e); [|exact Hc]. cbn [a_eprev a_prev andb]. exact Hc.
-    - destruct (x =? e); exact Hc.
-    - destruct (a_pend c); reflexivity. }
-  apply G. reflexivity.
-Qed.
-
-(* whitelist: the two agree as long as e is not shown again after having been hidden in the
-   current window; stated as a one-step fact *)
-Lemma spec_eprev_whitelist_set ops e b :
-  spec_eprev true (ops ++ [VSet e b]) e
-  = if b && negb (spec_cur true ops e) then false else spec_eprev true ops e.
-Proof. unfold spec_eprev, spec_cur. rewrite spec_snoc. cbn [astep]. rewrite N.eqb_refl. reflexivity. Qed.
-
-Lemma spec_eprev_tick wl ops e : spec_eprev wl (ops ++ [VTick]) e = spec_prev wl (ops ++ [VTick]) e.
-Proof.
-  unfold spec_eprev, spec_prev. rewrite spec_snoc. cbn [astep].
-  destruct (a_pend (spec wl ops e)); reflexivity.
 Qed.
 
 (* ---------- (i) the query reports the most recent setting ---------- *)
@@ -591,12 +566,12 @@ Theorem vis_query_latest wl ops e :
   is_visible (s_vis (vis_exec (vis_init wl) ops)) e = spec_cur wl ops e.
 Proof.
   destruct (reachable_Inv wl ops) as [Hwl Hinv]. destruct (Hinv e) as [Hv _].
-  apply (is_visible_conc _ _ _ (spec_eprev wl ops e)). rewrite Hwl. exact Hv.
+  apply (is_visible_conc _ _ _ (spec_prev wl ops e)). rewrite Hwl. exact Hv.
 Qed.
 
 (* between ticks also `state` is determined *)
 Theorem vis_state_any_time wl ops e :
-  state (s_vis (vis_exec (vis_init wl) ops)) e = classify (spec_cur wl ops e) (spec_eprev wl ops e).
+  state (s_vis (vis_exec (vis_init wl) ops)) e = classify (spec_cur wl ops e) (spec_prev wl ops e).
 Proof.
   destruct (reachable_Inv wl ops) as [Hwl Hinv]. destruct (Hinv e) as [Hv _].
   apply state_conc. rewrite Hwl. exact Hv.
@@ -611,7 +586,7 @@ Proof. destruct (reachable_Inv wl ops) as [_ Hinv]. destruct (Hinv e) as [_ Hc].
 Theorem vis_state_classification wl ops e :
   let o := snd (vis_tick (vis_exec (vis_init wl) ops)) in
   let c := spec wl ops e in
-  out_state o e = classify (mid_cur wl c) (mid_eprev wl c) /\
+  out_state o e = classify (mid_cur wl c) (mid_prev wl c) /\
   out_is_visible o e = mid_cur wl c.
 Proof.
   cbv zeta.
@@ -620,10 +595,10 @@ Proof.
   set (vm := o_mid (snd (vis_tick (vis_exec (vis_init wl) ops)))) in *.
   assert (Hv : view vm e = conc (is_whitelist vm) (mid_cur wl (spec wl ops e))
                  (match a_pend (spec wl ops e) with
-                  | O => a_eprev (spec wl ops e) && a_cur (spec wl ops e)
+                  | O => a_prev (spec wl ops e) && a_cur (spec wl ops e)
                   | S _ => negb wl end)) by (rewrite Hwl; exact Hv0).
   split.
-  - rewrite (state_conc _ _ _ _ Hv). unfold mid_cur, mid_eprev.
+  - rewrite (state_conc _ _ _ _ Hv). unfold mid_cur, mid_prev.
     destruct (a_pend (spec wl ops e)); [apply classify_drained|reflexivity].
   - exact (is_visible_conc _ _ _ _ Hv).
 Qed.
@@ -635,28 +610,19 @@ Proof. destruct cur, prev; cbn; split; intros H; try discriminate H; reflexivity
 Lemma classify_hidden cur prev : classify cur prev = VHidden <-> negb cur = true.
 Proof. destruct cur, prev; cbn; split; intros H; try discriminate H; reflexivity. Qed.
 
-(* for an entity without pending despawn, in the terms of the task statement *)
+(* for an entity without pending despawn, in the terms of the property statement *)
 Corollary vis_state_classification_live wl ops e :
   spec_pend wl ops e = O ->
   let st := out_state (snd (vis_tick (vis_exec (vis_init wl) ops))) e in
-  (st = VGained <-> spec_cur wl ops e && negb (spec_eprev wl ops e) = true) /\
-  (st = VVisible <-> spec_cur wl ops e && spec_eprev wl ops e = true) /\
+  st = classify (spec_cur wl ops e) (spec_prev wl ops e) /\
+  (st = VGained <-> spec_cur wl ops e && negb (spec_prev wl ops e) = true) /\
+  (st = VVisible <-> spec_cur wl ops e && spec_prev wl ops e = true) /\
   (st = VHidden <-> negb (spec_cur wl ops e) = true).
 Proof.
   intros Hp. cbv zeta. destruct (vis_state_classification wl ops e) as [H _]. rewrite H.
-  unfold mid_cur, mid_eprev. unfold spec_pend in Hp. rewrite Hp.
+  unfold mid_cur, mid_prev. unfold spec_pend in Hp. rewrite Hp.
+  split; [reflexivity|].
   split; [apply classify_gained|split; [apply classify_visible|apply classify_hidden]].
-Qed.
-
-(* blacklist: exactly the ideal classification *)
-Corollary vis_state_classification_blacklist ops e :
-  spec_pend false ops e = O ->
-  out_state (snd (vis_tick (vis_exec (vis_init false) ops))) e
-  = classify (spec_cur false ops e) (spec_prev false ops e).
-Proof.
-  intros Hp. destruct (vis_state_classification false ops e) as [H _]. cbv zeta in H. rewrite H.
-  unfold mid_cur, mid_eprev. unfold spec_pend in Hp. rewrite Hp.
-  rewrite <- spec_eprev_blacklist. reflexivity.
 Qed.
 
 (* an entity whose despawn is processed by this tick is read with the policy default *)
@@ -665,7 +631,7 @@ Corollary vis_state_classification_pending wl ops e :
   out_state (snd (vis_tick (vis_exec (vis_init wl) ops))) e = if wl then VHidden else VVisible.
 Proof.
   intros Hp. destruct (vis_state_classification wl ops e) as [H _]. cbv zeta in H. rewrite H.
-  unfold mid_cur, mid_eprev. unfold spec_pend in Hp.
+  unfold mid_cur, mid_prev. unfold spec_pend in Hp.
   destruct (a_pend (spec wl ops e)); [congruence|]. destruct wl; reflexivity.
 Qed.
 
@@ -677,7 +643,7 @@ Corollary vis_hidden_is_skipped wl ops e :
   out_state o e = VHidden /\ out_is_visible o e = false.
 Proof.
   intros Hp Hc. cbv zeta. destruct (vis_state_classification wl ops e) as [H1 H2].
-  cbv zeta in H1, H2. rewrite H1, H2. unfold mid_cur, mid_eprev.
+  cbv zeta in H1, H2. rewrite H1, H2. unfold mid_cur, mid_prev.
   unfold spec_pend in Hp. unfold spec_cur in Hc. rewrite Hp, Hc. split; reflexivity.
 Qed.
 
@@ -691,15 +657,15 @@ Proof.
   destruct (Hall e) as [H _]. exact H.
 Qed.
 
-(* completeness: everything the structure remembers the client to have, and that is now hidden
-   or despawned, gets a record (D03 is the case cur = false /\ pending) *)
+(* completeness: everything the client has been told about, and that is now hidden or
+   despawned, gets a record (D03 is the case cur = false /\ pending) *)
 Corollary vis_despawn_records_complete wl ops e :
-  spec_eprev wl ops e = true ->
+  spec_prev wl ops e = true ->
   spec_cur wl ops e = false \/ spec_pend wl ops e <> O ->
   In e (o_despawns (snd (vis_tick (vis_exec (vis_init wl) ops)))).
 Proof.
   intros Hp Hor. apply vis_despawn_records. unfold despawn_record.
-  unfold spec_eprev in Hp. unfold spec_cur, spec_pend in Hor. rewrite Hp.
+  unfold spec_prev in Hp. unfold spec_cur, spec_pend in Hor. rewrite Hp.
   destruct (a_cur (spec wl ops e)); cbn [negb andb orb]; [|reflexivity].
   destruct Hor as [Hc | Hn]; [discriminate Hc|].
   destruct (a_pend (spec wl ops e)) as [|[|n]]; [congruence|reflexivity|reflexivity].
@@ -708,14 +674,14 @@ Qed.
 (* soundness: a record is sent only for such an entity, or in exactly two harmless cases *)
 Corollary vis_despawn_records_sound wl ops e :
   In e (o_despawns (snd (vis_tick (vis_exec (vis_init wl) ops)))) ->
-  (spec_eprev wl ops e = true /\ (spec_cur wl ops e = false \/ spec_pend wl ops e <> O))
-  \/ (spec_eprev wl ops e = false /\ spec_cur wl ops e = true /\ spec_pend wl ops e <> O)
-  \/ (wl = false /\ spec_eprev wl ops e = false /\ spec_cur wl ops e = false /\
+  (spec_prev wl ops e = true /\ (spec_cur wl ops e = false \/ spec_pend wl ops e <> O))
+  \/ (spec_prev wl ops e = false /\ spec_cur wl ops e = true /\ spec_pend wl ops e <> O)
+  \/ (wl = false /\ spec_prev wl ops e = false /\ spec_cur wl ops e = false /\
       (2 <= spec_pend wl ops e)%nat).
 Proof.
   intros Hin. apply vis_despawn_records in Hin. unfold despawn_record in Hin.
-  unfold spec_eprev, spec_cur, spec_pend.
-  destruct (a_eprev (spec wl ops e)), (a_cur (spec wl ops e)); cbn [negb andb orb] in Hin.
+  unfold spec_prev, spec_cur, spec_pend.
+  destruct (a_prev (spec wl ops e)), (a_cur (spec wl ops e)); cbn [negb andb orb] in Hin.
   - left. split; [reflexivity|]. right.
     destruct (a_pend (spec wl ops e)); [discriminate Hin|congruence].
   - left. split; [reflexivity|]. left. reflexivity.
@@ -726,55 +692,14 @@ Proof.
     destruct wl; [discriminate Hin|]. repeat split; lia.
 Qed.
 
-(* blacklist: in terms of the ideal "what the client has been told" *)
-Corollary vis_despawn_records_blacklist ops e :
-  spec_prev false ops e = true ->
-  spec_cur false ops e = false \/ spec_pend false ops e <> O ->
-  In e (o_despawns (snd (vis_tick (vis_exec (vis_init false) ops)))).
-Proof. intros Hp. apply vis_despawn_records_complete. rewrite spec_eprev_blacklist. exact Hp. Qed.
-
-(* whitelist: same, as long as the structure has not forgotten *)
-Corollary vis_despawn_records_whitelist_missing ops e :
-  spec_prev true ops e = true -> spec_cur true ops e = false ->
-  ~ In e (o_despawns (snd (vis_tick (vis_exec (vis_init true) ops)))) ->
-  spec_eprev true ops e = false.
+(* without pending despawn: exactly the entities that lost visibility *)
+Corollary vis_despawn_records_live wl ops e :
+  spec_pend wl ops e = O ->
+  (In e (o_despawns (snd (vis_tick (vis_exec (vis_init wl) ops))))
+   <-> spec_prev wl ops e && negb (spec_cur wl ops e) = true).
 Proof.
-  intros Hp Hc Hn. destruct (spec_eprev true ops e) eqn:He; [|reflexivity].
-  exfalso. apply Hn. apply vis_despawn_records_complete; [exact He|left; exact Hc].
-Qed.
-
-(* ---------- refutations of the ideal statements under the whitelist policy ---------- *)
-
-(* visible at the last tick, then hidden, shown, hidden inside one window: the client has the
-   entity, it is hidden now, and NO despawn record is produced (now or ever: the structure is
-   back to its initial state) *)
-Definition wl_lost_witness : list vop :=
-  [VSet 7 true; VTick; VSet 7 false; VSet 7 true; VSet 7 false].
-
-Lemma vis_despawn_records_whitelist_ideal_refuted :
-  ~ (forall ops e, spec_prev true ops e = true -> spec_cur true ops e = false ->
-       In e (o_despawns (snd (vis_tick (vis_exec (vis_init true) ops))))).
-Proof.
-  intros H. specialize (H wl_lost_witness 7 eq_refl eq_refl).
-  vm_compute in H. exact H.
-Qed.
-
-Lemma wl_lost_witness_forgotten :
-  spec_prev true wl_lost_witness 7 = true /\ spec_cur true wl_lost_witness 7 = false /\
-  o_despawns (snd (vis_tick (vis_exec (vis_init true) wl_lost_witness))) = [] /\
-  s_vis (vis_exec (vis_init true) wl_lost_witness) = whitelist.
-Proof. vm_compute. repeat split. Qed.
-
-(* visible at the last tick, then hidden and shown again inside one window: classified as
-   VGained although the client has it (full resend, harmless) *)
-Definition wl_regain_witness : list vop := [VSet 7 true; VTick; VSet 7 false; VSet 7 true].
-
-Lemma vis_state_classification_whitelist_ideal_refuted :
-  ~ (forall ops e, spec_pend true ops e = O ->
-       out_state (snd (vis_tick (vis_exec (vis_init true) ops))) e
-       = classify (spec_cur true ops e) (spec_prev true ops e)).
-Proof.
-  intros H. specialize (H wl_regain_witness 7 eq_refl). vm_compute in H. discriminate H.
+  intros Hp. rewrite vis_despawn_records. unfold despawn_record, spec_prev, spec_cur.
+  unfold spec_pend in Hp. rewrite Hp, orb_false_r. reflexivity.
 Qed.
 
 (* ---------- (iv) pointwise independence ---------- *)
@@ -808,7 +733,7 @@ Proof.
   destruct (vis_state_classification wl ops1 e) as [H1 H1'].
   destruct (vis_state_classification wl ops2 e) as [H2 H2'].
   cbv zeta in H1, H1', H2, H2'. rewrite H1, H1', H2, H2'.
-  unfold spec_cur, spec_eprev. rewrite Hs. repeat split; intros H; exact H.
+  unfold spec_cur, spec_prev. rewrite Hs. repeat split; intros H; exact H.
 Qed.
 
 (* in particular an operation on another entity changes nothing about e *)
